@@ -24,6 +24,19 @@ TRIGGERS = {
     'vars_call': 'vars()',
     'eval_ref': 'eval',
     'locals_attr': 'locals().get',
+    'vars_arg': 'vars(some_object)',
+    'vars_module': 'vars(sys.modules[__name__])',
+    'vars_then_bare': '(vars(some_object), vars())',
+    'vars_ref': '[vars][0]',
+    'vars_kw': 'vars(*some_args)',
+    'locals_ref': 'some_call(locals)',
+    'globals_ref': 'globals',
+    'globals_update': 'globals().update(k=1)',
+    'exec_ref': 'exec',
+    'exec_args': 'exec("x = 1", some_globals, some_locals)',
+    'eval_args': 'eval("x", some_globals)',
+    'eval_attr': 'eval.__name__',
+    'exec_star': 'exec(*some_args)',
 }
 
 POSITIONS = {
@@ -41,7 +54,9 @@ POSITIONS = {
     'condition': '{P}\nif {T}:\n    pass\n',
 }
 
-STAR = ['from os.path import *\n{P}', '{P}\ndef star_function():\n    pass\nfrom os import *\n']
+STAR = ['from os.path import *\n{P}', '{P}\ndef star_function():\n    pass\nfrom os import *\n', 'from . import *\n{P}', '{P}\nfrom .. import *\n',
+        'from .sibling import *\n{P}', 'try:\n    from . import *\nexcept ImportError:\n    pass\n{P}', 'if some_condition:\n    from ...pkg.mod import *\n{P}',
+        '{P}\nfrom os import path, sep\nfrom . import *\n']
 
 
 def tainted_programs(ctx, n):
@@ -57,8 +72,8 @@ def tainted_programs(ctx, n):
         i += 1
         prog = POSITIONS[pname].format(T=TRIGGERS[tname], P=src)
         out.append(('%s@%s:%s' % (tname, pname, ident), prog, src))
-        if i % 9 == 0:
-            out.append(('star:%s' % ident, STAR[i % 2].format(P=src), src))
+        if i % 5 == 0:
+            out.append(('star%d:%s' % (i % len(STAR), ident), STAR[i % len(STAR)].format(P=src), src))
     return out
 
 
